@@ -238,7 +238,7 @@ func UseNested(a, b int) int {
 // conversion, a generic instantiation, a package-level function; a loop condition that is
 // a call of a reassigned function variable; imports used only by generator code, only by
 // bystanders, blank, renamed and dot imports. All functions are registry entries.
-func optTemplates(r *prng.R, tag func() int) (imports, src, ref []string, funcs []*Func) {
+func optTemplates(r *prng.R, tag func() int) (imports, src, ref []string, funcs []*Func, plain []string) {
 	k1, k2, k3 := r.Range(1, 4), r.Range(5, 9), r.Range(0, 3)
 	imports = []string{`"strconv"`, `mb "math/bits"`, `_ "unicode/utf8"`, `. "sort"`}
 	common := fmt.Sprintf(`type cell struct{ n int }
@@ -376,6 +376,36 @@ func ByBuiltins(a, b int) int {
 	return vrt.V(%[6]d, l("abc")+int(cv(a))+id(b)+pk()+len(xs)+pinit+mb.OnesCount(uint(a+8)))
 }
 
+// no effect points inside (the function is atomic for the thread scheduler): it owns the
+// package-level state while it runs
+func UsePkgLevel(a, b int) int {
+	setLevel(a)
+	g, h, k := genLevels(3), genLevelFirst(), genLevelAfter(b > 0)
+	setLevel(a + 7) // between the creation of the iterators and their first advance
+	sum := 0
+	if h.MoveNext() {
+		sum = h.Current()
+	}
+	for k.MoveNext() {
+		sum = sum*10 + k.Current()
+		setLevel(a + 9)
+	}
+	for g.MoveNext() {
+		sum = sum*10 + g.Current()
+		setLevel(g.Current() + b + 1)
+	}
+	setLevel(0)
+	setLevel2(b)
+	g2 := genLevels2(3)
+	setLevel2(b + 5)
+	for g2.MoveNext() {
+		sum = sum*10 + g2.Current()
+		setLevel2(g2.Current() + a + 1)
+	}
+	setLevel2(0)
+	return vrt.V(%[14]d, sum)
+}
+
 func sumOf(xs []int) int {
 	s := 0
 	for _, x := range xs {
@@ -434,7 +464,7 @@ func ByPartialPkg(a, b int) int {
 	}
 	return vrt.V(%[13]d, r*100+int(same(wide(b)).(wide)))
 }
-`, k1, k2, k3, tag(), tag(), tag(), tag(), tag(), tag(), tag(), tag(), tag(), tag())
+`, k1, k2, k3, tag(), tag(), tag(), tag(), tag(), tag(), tag(), tag(), tag(), tag(), tag())
 	genSrc := fmt.Sprintf(`func optRows(n int) «Iter[[]int]» {
 	for i := 0; i < n; i++ {
 		«Yield»([]int{0, 0}) // an all-literal slice: a fresh one per iteration
@@ -570,6 +600,38 @@ func OptPromotedNilClosure(a, b int) «Iter[int]» {
 	return nil
 }
 
+// pkgLevel is declared in a plain sibling file and only written there (setLevel): a yield of
+// it reads it when the yield is reached, every time
+func genLevels(n int) «Iter[int]» {
+	for i := 0; i < n; i++ {
+		«Yield»(pkgLevel)
+	}
+	return nil
+}
+
+func genLevelFirst() «Iter[int]» {
+	«Yield»(pkgLevel)
+	return nil
+}
+
+// pkgLevel2 is declared HERE, in a rewritten file, but written only from a plain file
+var pkgLevel2 int
+
+func genLevels2(n int) «Iter[int]» {
+	for i := 0; i < n; i++ {
+		«Yield»(pkgLevel2)
+	}
+	return nil
+}
+
+func genLevelAfter(first bool) «Iter[int]» {
+	if first {
+		«Yield»(-1)
+	}
+	«Yield»(pkgLevel)
+	return nil
+}
+
 func OptDelay(a, b int) (_ «Iter[int]») {
 	x := a
 	if b > 0 {
@@ -593,6 +655,10 @@ func OptDelay(a, b int) (_ «Iter[int]») {
 }
 `, tag(), tag(), k2, tag(), tag(), tag())
 	genRef := strings.NewReplacer(
+		"func genLevels(n int) «Iter[int]» {\n", "func genLevels(n int) «Iter[int]» {\n\treturn refco.Go(func(ʏ *refco.Y[int]) {\n",
+		"func genLevels2(n int) «Iter[int]» {\n", "func genLevels2(n int) «Iter[int]» {\n\treturn refco.Go(func(ʏ *refco.Y[int]) {\n",
+		"func genLevelFirst() «Iter[int]» {\n", "func genLevelFirst() «Iter[int]» {\n\treturn refco.Go(func(ʏ *refco.Y[int]) {\n",
+		"func genLevelAfter(first bool) «Iter[int]» {\n", "func genLevelAfter(first bool) «Iter[int]» {\n\treturn refco.Go(func(ʏ *refco.Y[int]) {\n",
 		"func OptPromotedPtr(a, b int) «Iter[int]» {\n", "func OptPromotedPtr(a, b int) «Iter[int]» {\n\treturn refco.Go(func(ʏ *refco.Y[int]) {\n",
 		"func OptPromotedNil(a, b int) «Iter[int]» {\n", "func OptPromotedNil(a, b int) «Iter[int]» {\n\treturn refco.Go(func(ʏ *refco.Y[int]) {\n",
 		"func OptPromotedNilClosure(a, b int) «Iter[int]» {\n", "func OptPromotedNilClosure(a, b int) «Iter[int]» {\n\treturn refco.Go(func(ʏ *refco.Y[int]) {\n",
@@ -621,6 +687,7 @@ func OptDelay(a, b int) (_ «Iter[int]») {
 		mk("OptLoopCond", true, "loop_condition_calls_reassigned_variable"),
 		mk("OptEtaInGen", true, "eta_shape_inside_generator", "import_used_only_by_generator_code", "import_dot"),
 		mk("OptDelay", true, "delay_elision_shapes"),
+		mk("UsePkgLevel", false, "yield_of_package_level_variable_declared_and_written_in_a_plain_file"),
 		mk("ByVariadic", false, "eta_shape_variadic_forwarding_and_unnamed_parameters"),
 		mk("ByGenericCallee", false, "eta_shape_generic_callee_inferred_type_argument"),
 		mk("ByPartialPkg", false, "eta_shape_types_from_a_plain_sibling_file"),
@@ -628,6 +695,7 @@ func OptDelay(a, b int) (_ «Iter[int]») {
 		mk("OptPromotedNil", true, "loop_condition_promoted_method_nil_receiver"),
 		mk("OptPromotedNilClosure", true, "eta_shape_promoted_method_nil_receiver"),
 	}
+	plain = []string{"// the only writer of pkgLevel2 (declared in a rewritten file) lives in this plain file\nfunc setLevel2(n int) { pkgLevel2 = n }\n"}
 	return
 }
 
